@@ -25,6 +25,7 @@ import (
 // RunResult is what one run reports.
 type RunResult struct {
 	Seed    int64         `json:"seed"`
+	From    int64         `json:"worker_from,omitempty"` // first seed of the worker process that ran it
 	Cfg     world.Config  `json:"cfg"`
 	Events  int           `json:"events"`
 	Calls   int           `json:"calls"`
@@ -290,6 +291,10 @@ type ReplayFile struct {
 	Events    []world.Event `json:"events"`
 	Violation FoundJSON     `json:"violation"`
 	OrigLen   int           `json:"original_events"`
+	// Kind "seed-range": the violation needs the process history of the worker that found it (hidden
+	// state in the code under test survives between executions): replay re-runs seeds From..Seed
+	Kind string `json:"kind,omitempty"`
+	From int64  `json:"from,omitempty"`
 }
 
 func worker(ps *PropSpec, from, to int64, outPath string, keepHashes bool, maxViol int) {
@@ -351,6 +356,7 @@ func worker(ps *PropSpec, from, to int64, outPath string, keepHashes bool, maxVi
 			}
 			if mine {
 				if len(out.Violating) < maxViol {
+					res.From = from
 					out.Violating = append(out.Violating, *res)
 				}
 			} else {
@@ -514,6 +520,31 @@ func doReplay(path string) int {
 	if rf.Property == "C19" {
 		fmt.Fprintln(os.Stderr, "C19 replay files are replayed by the concurrency engine (check C19 --replay)")
 		return 2
+	}
+	if rf.Kind == "seed-range" {
+		ps, ok := props()[rf.Property]
+		if !ok {
+			return 2
+		}
+		limitMemory()
+		for sd := rf.From; sd <= rf.Seed; sd++ {
+			res, _, err := runSeed(sd, ps, false)
+			if err != nil {
+				fmt.Fprintln(os.Stderr, err)
+				return 2
+			}
+			if sd == rf.Seed {
+				for _, f := range res.Found {
+					if f.Clause == rf.Violation.Clause && has(f.Props, rf.Property) {
+						fmt.Printf("reproduced with the process history of seeds %d..%d: [%s] %s: %s\n", rf.From, rf.Seed, strings.Join(f.Props, ","), f.Clause, f.Detail)
+						fmt.Printf("VIOLATION property=%s replay=%s\n", rf.Property, path)
+						return 1
+					}
+				}
+			}
+		}
+		fmt.Println("the recorded violation does not occur on this tree")
+		return 0
 	}
 	if rf.Violation.Clause == "process-death" {
 		self, _ := os.Executable()
@@ -750,7 +781,24 @@ func parent(ps *PropSpec, tier string, seed int64, runs, workers int, verifDir s
 			w, _ = replayTrace(rr.Cfg, small, false)
 			got = sameViolation(w, ps.ID, f.Clause)
 			if got == nil {
-				fmt.Fprintf(os.Stderr, "HARNESS TROUBLE: violation of seed %d does not replay from its own trace (nondeterminism)\n", rr.Seed)
+				// not reproducible from a fresh world: does it reproduce with the worker's process
+				// history (hidden state in the code under test carried from one execution to the next)?
+				rf := ReplayFile{Property: ps.ID, Seed: rr.Seed, Kind: "seed-range", From: rr.From, Config: rr.Cfg,
+					Violation: FoundJSON{Props: f.Props, Clause: f.Clause, Detail: f.Detail + " [only with the process history of seeds " + fmt.Sprint(rr.From) + ".." + fmt.Sprint(rr.Seed) + ": state hidden in the code under test survives between executions]", Event: f.Event}}
+				_ = os.MkdirAll(filepath.Join(verifDir, "replays"), 0o755)
+				path := filepath.Join(verifDir, "replays", fmt.Sprintf("%s-seeds%d-%d.json", ps.ID, rr.From, rr.Seed))
+				b, _ := json.MarshalIndent(rf, "", " ")
+				_ = os.WriteFile(path, b, 0o644)
+				c := exec.Command(self, "-replay", path)
+				c.Env = append(os.Environ(), "GOMAXPROCS=1")
+				outB, _ := c.Output()
+				if strings.Contains(string(outB), "VIOLATION property="+ps.ID) {
+					fmt.Printf("violation (seeds %d..%d in one process): [%s] %s: %s\n", rr.From, rr.Seed, strings.Join(f.Props, ","), f.Clause, rf.Violation.Detail)
+					fmt.Printf("VIOLATION property=%s replay=%s\n", ps.ID, path)
+					exit = 1
+					continue
+				}
+				fmt.Fprintf(os.Stderr, "HARNESS TROUBLE: violation of seed %d does not replay from its own trace nor with its worker's history (nondeterminism)\n", rr.Seed)
 				return 2
 			}
 		}
